@@ -3,7 +3,7 @@ from harness import tcpgen as G, wire as W, httpgen as H, dbgen as D
 from harness.props import c09
 
 RULE = ("pools of packets / HTTP payloads / database files replayed as histories of 30 calls in permuted, repeated and interleaved "
-        "order on ONE process and ONE shared Database: loads and reloads, fingerprint_tcp with varying syn_mss and max_dist on raw "
+        "order on ONE process and ONE shared Database: loads and reloads, loads that FAIL (fault on a late line), fingerprint_tcp with varying syn_mss and max_dist on raw "
         "Scapy packets, on freshly parsed and on one REUSED parsed Packet object, fingerprint_mtu, fingerprint_http on bytes / "
         "bytearray / ReceiveBuffer, impersonate_tcp by label and by signature with extra_hops, impersonate_mtu, uptime; every "
         "fingerprint result is compared with the history-free value the model machine computes; sibling packets differing only "
@@ -104,6 +104,10 @@ def generate(R, tier):
             msgs.append((d, hs))
             payloads.append(msg.hex())
         files = [build_file(R, pkts, msgs) for _ in range(2)]
+        # a third file that does NOT load (a fault on a late line): a failed load leaves the database, and so every later result, as it was
+        bad = list(files[0])
+        bad.insert(R.randint(len(bad) // 2, len(bad)), R.choice(["sig = ", "junk line", "label = x", "[tcp]", "sig = 4:64:0:*:1,0:::1:2"]))
+        files.append(bad)
         labels = sorted({l.split("=", 1)[1].strip() for f in files for l in f if l.startswith("label = ") and ":" in l})
         ops = [{"op": "load", "file": 0}]
         if R.random() < 0.3:
@@ -118,8 +122,8 @@ def generate(R, tier):
             r = R.random()
             j = R.randrange(len(pkts))
             if r < 0.08:
-                ops.append({"op": "load", "file": R.randrange(2)})
-                if R.random() < 0.4:
+                ops.append({"op": "load", "file": R.choice([0, 1, 0, 1, 2])})
+                if ops[-1]["file"] != 2 and R.random() < 0.4:
                     # the caller adds a record through the public add(), then loads the SAME unchanged file again: load() replaces whatever the object holds
                     ops.append({"op": "reload_after_add"})
             elif r < 0.5:
@@ -183,7 +187,8 @@ def model_line(c):
             continue
         if o["op"] == "load":
             f = c["files"][o["file"]]
-            cur_file = o["file"]
+            if o["file"] != 2:
+                cur_file = o["file"]
             toks.append("0 %d %s" % (len(f), " ".join(c09.hexline(l) for l in f)))
         elif o["op"] == "reload_after_add":
             if cur_file is None:
@@ -346,7 +351,7 @@ def judge(c, ir, mr):
         return {"kind": "history raised", "why": str(ir)}
     cur = None
     for k, (a, b) in enumerate(zip(ir, mr)):
-        if c["ops"][k]["op"] == "load":
+        if c["ops"][k]["op"] == "load" and isinstance(a, dict) and a.get("load"):
             cur = c["files"][c["ops"][k]["file"]]
         if isinstance(a, dict) and "len" in a:
             n = a["len"]
